@@ -118,6 +118,16 @@ def marker_cases(rng, n):
         nf = rng.randint(1, 3)
         fields = ", ".join("%s: %s" % (gen.FIELD_NAMES[j], rng.choice(["u8", "[u8; 4]", "u32", "f32"])) for j in range(nf))
         out.append(("#[derive(Educe)]\n#[educe(%s%s)]\npub union U%d { %s }" % (meta, extra, i, fields), ok))
+    # Default: a type-level expression leaves no room for a designated field; several designated fields are refused
+    for j, (meta, fattr_pos) in enumerate([("Default(expression = U%d { a: 1 })", [(1, "Default")]), ("Default(expression = U%d { a: 1 })", [(0, "Default = 7")]),
+                                           ("Default", [(0, "Default"), (1, "Default")]), ("Default", [(0, "Default = 1"), (1, "Default = 2")]), ("Default", [])]):
+        k = n + j
+        fs = ["a: u32", "b: u32"]
+        for pos, a in fattr_pos:
+            fs[pos] = "#[educe(%s)] %s" % (a, fs[pos])
+        out.append(("#[derive(Educe)]\n#[educe(%s)]\npub union U%d { %s }" % ((meta % k) if "%d" in meta else meta, k, ", ".join(fs)), False))
+    out.append(("#[derive(Educe)]\n#[educe(Default)]\npub union U%d { a: u32, #[educe(Default)] b: u32 }" % (n + 9), True))
+    out.append(("#[derive(Educe)]\n#[educe(Default(expression = U%d { a: 1 }))]\npub union U%d { a: u32, b: u32 }" % (n + 10, n + 10), True))
     return out
 
 
@@ -135,10 +145,10 @@ def refusal_tie(tie, rng, n):
         r = real[i]
         tie["evaluations"] += 1
         if ok and r["outcome"] != "ok":
-            tie["failing"].append({"what": "a union attribute with `unsafe` as its first parameter is refused", "rust_source": src,
+            tie["failing"].append({"what": "a valid union request (marker first / designated default field) is refused", "rust_source": src,
                                    "observed": r.get("message", r["outcome"])[:300], "expected_spec": "accepted"})
         elif not ok and r["outcome"] == "ok":
-            tie["failing"].append({"what": "a union impl is generated although `unsafe` is not the first parameter of the attribute",
+            tie["failing"].append({"what": "a union impl is generated although the request is invalid (`unsafe` not first, or no unique designated default field)",
                                    "rust_source": src, "observed": "accepted: " + r["tokens"][:300], "expected_spec": "refused with a diagnostic"})
         elif not ok and r["outcome"] not in ("err",):
             tie["failing"].append({"what": "a union attribute without the marker is not answered with a diagnostic", "rust_source": src,
